@@ -237,7 +237,7 @@ def gen_case(rng, gen):
         w = spec["wires"]
         for _ in range(int(rng.integers(1, 4))):
             k = ["expval", "var", "probs", "sample", "counts", "expval_herm", "state"][int(rng.integers(7))]
-            if k == "state" and rng.random() < 0.7:
+            if k == "state" and rng.random() < 0.3:
                 k = "expval"
             ms.append({"m": k, "wires": [w[int(i)] for i in rng.choice(len(w), size=int(rng.integers(1, len(w) + 1)), replace=False)]})
         spec["shot_meas"] = ms
@@ -348,7 +348,9 @@ def run(ctx):
             pred = predicates(qp, name)
             bad = None
             devw = set(order)
+            from pennylane.core.measurements import SampleMeasurement
             from pennylane.core.operator import StatePrepBase
+            from pennylane.measurements import ClassicalShadowMP, ShadowExpvalMP
             for t in out_tapes:
                 for pos_o, o in enumerate(t.operations):
                     ctx.ev("pre.native")
@@ -364,6 +366,9 @@ def run(ctx):
                         bad = f"analytic measurement {m} is not accepted by the device"
                     if "sample" in pred and t.shots and not pred["sample"](m):
                         bad = f"finite-shot measurement {m} is not accepted by the device"
+                    if t.shots and not isinstance(m, (SampleMeasurement, ClassicalShadowMP, ShadowExpvalMP)):
+                        # independent of the device's own predicate: a state-only measurement process cannot be evaluated from samples
+                        bad = f"analytic-only measurement {type(m).__name__} kept with finite shots (must be rejected, not executed)"
                     if "obs" in pred and m.obs is not None and not pred["obs"](m.obs):
                         bad = f"observable {m.obs.name} is not accepted by the device"
                     if not set(m.wires) <= devw:
@@ -371,7 +376,10 @@ def run(ctx):
                 if bad:
                     break
             if bad:
-                ctx.violation("pre.native", f"{name}: preprocessed tape is not native: {bad}", case=info, mech=f"not-native:{name}:{bad.split(' ')[0]}")
+                mech = f"not-native:{name}:{bad.split(' ')[0]}"
+                if name == "reference.qubit" and bad.startswith("analytic-only"):
+                    mech = "reference.qubit:state-with-shots-not-rejected"
+                ctx.violation("pre.native", f"{name}: preprocessed tape is not native: {bad}", case=info, mech=mech)
                 continue
             # ---- (a2) raw execution
             ctx.ev("pre.executable")
@@ -390,7 +398,7 @@ def run(ctx):
                 ok = per is not None and len(per) == nsh and all(len(ms) == 1 or (isinstance(r_, (tuple, list)) and len(r_) == len(ms)) for r_ in per)
                 if not ok:
                     ctx.violation("pre.equivalent", f"{name}: finite-shot result does not have the structure (shot entries={nsh}) x (measurements={len(ms)})", case=info,
-                                  mech=f"structure:shots:{name}")
+                                  mech="default.clifford:shot-vector-ignored" if (name == "default.clifford" and isinstance(shots, list)) else f"structure:shots:{name}")
                 continue
             rr = (res,) if len(ms) == 1 else res
             if not isinstance(rr, (tuple, list)) or len(rr) != len(ms):
